@@ -266,7 +266,7 @@ def run(chk):
             sp = [s if not isinstance(s, slice) else rng.randint(0, N) for s in sp[:-1]] + [sp[-1]]
         props = [(gint(rng, (d2, d2), -1, 1), gint(rng, (d2, d2), -1, 1)) for _ in range(N)]
         rho0 = gint(rng, (d, d), -1, 1)
-        sysm = InjSystem(d, props)
+        sysm = InjSystem(d, props, start=start)     # time-dependent: the propagators belong to this start time only
         info = {"kind": "nt", "d": d, "N": N, "dt": dt, "start": start, "orders": orders, "specs": [repr(s) for s in sp]}
         want_steps = [steps_of(s, N, dt, start) for s in sp]
         if any(w == [] for w in want_steps):
@@ -331,7 +331,7 @@ def run(chk):
         sa, sb = rand_spec(rng, N, dt, start), rand_spec(rng, N, dt, start)
         props = [(gint(rng, (4, 4), -1, 1), gint(rng, (4, 4), -1, 1)) for _ in range(N)]
         rho0 = gint(rng, (d, d), -1, 1)
-        sysm = InjSystem(d, props)
+        sysm = InjSystem(d, props, start=start)
         info = {"kind": "two-time", "N": N, "stored_dt": stored, "specs": [repr(sa), repr(sb)]}
         wa, wb = steps_of(sa, N, dt, start), steps_of(sb, N, dt, start)
         if not wa or not wb:
